@@ -14,5 +14,22 @@ Definition embs_ok (c : c06_case) : bool :=
                     | None => false
                     end) (q_embs c).
 
+(* every cell still matches every comparable foreign error converted along its chain
+   (GErrHist.spec_convs): observed errors.Is(cell a, foreign k) must be 1 *)
+Definition convs_ok (c : c06_case) : bool :=
+  let convs := spec_convs (map (fun _ => []) (q_roots c)) (q_ops c) in
+  let ncells := length convs in
+  let col k := ncells + length (q_embs c) + k in
+  forallb (fun ak => let '(a, ks) := ak in
+             forallb (fun k => negb (comparable (nth k (q_foreign c) VNil))
+                               || Nat.eqb (nth (col k) (nth a (q_is c) []) 0) 1) ks)
+          (combine (seq 0 ncells) convs).
+
 Definition c06_judge_strict (c : c06_case) : nat :=
-  if ops_adm (q_roots c) (q_foreign c) (q_ops c) && embs_ok c then c06_judge c else 3.
+  if ops_adm (q_roots c) (q_foreign c) (q_ops c) && embs_ok c
+  then match c06_judge c with
+       | 0 => if convs_ok c then 0 else 1
+       | 2 => if convs_ok c then 2 else 4
+       | j => j
+       end
+  else 3.
